@@ -63,6 +63,9 @@ class Contract:
     # variables, checked as obligations where this function calls that callee ("the addressed layer is ...")
     call_asserts: dict = field(default_factory=dict)
     allocates: bool = True
+    # methods of opaque (uninterpreted) objects: name -> result type; a call is a deterministic
+    # uninterpreted function of the receiver (and string/int arguments)
+    opaque_methods: dict = field(default_factory=dict)
 
     def __post_init__(self):
         if not self.name:
